@@ -75,6 +75,7 @@ func (f *rawFileWriter) Open(path string) error {
 	if err == nil {
 		f.buf = make([]byte, encodeBufSize)
 		f.w = bufio.NewWriterSize(f.fd, DiskBlockSize)
+		f.w = verifWrapWriter(f.w, f.fd, path)
 	}
 	return err
 }
@@ -96,7 +97,10 @@ func (f *rawFileWriter) Close() error {
 		return err
 	}
 
+	verifPathPoint(VpFileBeforeFlush, f.fd.Name())
 	f.w.Flush()
+	verifPathPoint(VpFileBeforeClose, f.fd.Name())
+	defer verifPathPoint(VpFileClosed, f.fd.Name())
 	return f.fd.Close()
 }
 
